@@ -155,3 +155,55 @@ Lemma model_holds_C15_current : forall frepr i,
   proj_eqb frepr (i_dst i) (ob_dst (c_obs c)) = true /\ proj_eqb frepr (i_src i) (ob_src (c_obs c)) = true
   /\ ob_rest_ok (c_obs c) = true.
 Proof. intros frepr i He Hd. apply (model_holds_C15 frepr cfg_current i He Hd); reflexivity. Qed.
+
+(* ------------------------------------------------------------------ permission bits (SyncObs.perm_row) *)
+(* In a dry run the model of the permission bits predicts "unchanged" for every row: the tree model leaves the
+   destination as it is (dry_run_pooled_current), so no file carries the mtime NOW that marks a written file. *)
+Lemma perm_predicted_dry : forall i rows m r,
+  o_dry_run (i_opts i) = true -> ob_dst m = i_dst i ->
+  (pr_dst r = true -> forall c mt, file_at (pr_path r) (p_ws (i_dst i)) = Some (c, mt) -> mt <> NOW) ->
+  (pr_dst r = true -> file_at (pr_path r) (p_ws (i_dst i)) = None -> pr_before r = PERM_DEFAULT) ->
+  perm_predicted i rows m r = pr_before r.
+Proof.
+  intros i rows m r Hdry Hm Hnow Habs. unfold perm_predicted.
+  destruct (pr_dst r); [|reflexivity].
+  specialize (Hnow eq_refl). specialize (Habs eq_refl).
+  rewrite Hdry. cbn [negb]. rewrite andb_false_r. rewrite Hm.
+  destruct (file_at (pr_path r) (p_ws (i_dst i))) as [[c mt]|] eqn:E.
+  - destruct (Z.eqb mt NOW) eqn:EZ; [|reflexivity].
+    apply Z.eqb_eq in EZ. exfalso. exact (Hnow c mt eq_refl EZ).
+  - symmetry. apply Habs. reflexivity.
+Qed.
+
+Definition perm_rows_wf (c : case_sync) : Prop :=
+  forall r, In r (cs_perm c) -> pr_dst r = true ->
+    (forall c0 mt, file_at (pr_path r) (p_ws (i_dst (c_in (cs_case c)))) = Some (c0, mt) -> mt <> NOW)
+    /\ (file_at (pr_path r) (p_ws (i_dst (c_in (cs_case c)))) = None -> pr_before r = PERM_DEFAULT).
+
+(* licence for the correspondence, permission bits: when the implementation's bits agree with the model's on a
+   project-level dry run, the dry-run clause about the bits holds on the implementation's observation *)
+Lemma perm_model_holds_dry : forall c,
+  i_entry (c_in (cs_case c)) = E_project -> o_dry_run (i_opts (c_in (cs_case c))) = true ->
+  i_unmodelled (c_in (cs_case c)) = false -> i_parallel (c_in (cs_case c)) = false ->
+  docs_wf (i_src (c_in (cs_case c))) -> perm_rows_wf c ->
+  perm_mismatch c = false -> perm_dry_ok c = true.
+Proof.
+  intros c He Hdry Hun Hpar Hdocs Hwf Hmm.
+  unfold perm_dry_ok. rewrite Hdry. cbn [negb orb].
+  unfold perm_all_unchanged. apply forallb_forall. intros r Hin.
+  unfold perm_mismatch in Hmm. rewrite Hun, Hpar in Hmm. cbn [negb andb] in Hmm.
+  assert (Hr : negb (N.eqb (perm_predicted (c_in (cs_case c)) (cs_perm c)
+                   (model_call (cs_frepr c) cfg_current (i_opts (c_in (cs_case c))) (i_entry (c_in (cs_case c)))
+                               (i_src (c_in (cs_case c))) (i_dst (c_in (cs_case c)))) r) (pr_after r)) = false).
+  { destruct (negb (N.eqb _ (pr_after r))) eqn:E; [|reflexivity].
+    rewrite <- Hmm. symmetry. apply existsb_exists. exists r. split; [exact Hin|exact E]. }
+  apply negb_false_iff in Hr. apply N.eqb_eq in Hr. rewrite <- Hr.
+  rewrite (perm_predicted_dry _ _ _ r Hdry);
+    [apply N.eqb_refl| |intro Hd; exact (proj1 (Hwf r Hin Hd))|intro Hd; exact (proj2 (Hwf r Hin Hd))].
+  rewrite He. unfold model_call, model_call_gen, run_sync_gen.
+  pose proof (dry_run_pooled_current (cs_frepr c) false (i_opts (c_in (cs_case c))) (i_src (c_in (cs_case c)))
+                (i_dst (c_in (cs_case c))) Hdry Hdocs) as D.
+  destruct (sync_projects_m (cs_frepr c) cfg_current false (i_opts (c_in (cs_case c))) (i_src (c_in (cs_case c)))
+              (i_dst (c_in (cs_case c)))) as [d' e].
+  cbn [fst] in D. cbn [ob_dst]. exact D.
+Qed.
